@@ -399,17 +399,24 @@ impl ForwardedStreamSink {
             return Ok(data);
         }
 
-        let chunk_size = data.len();
         let unsent = state.sink.write(data.slice(..to_send))?;
-        state.sent_bytes += (chunk_size - unsent.len()) as u64;
+        let sent = to_send - unsent.len();
+        state.sent_bytes += sent as u64;
 
         if Some(state.sent_bytes) == state.body_length {
-            assert!(unsent.is_empty());
-            assert_eq!(data.len(), to_send);
+            if data.len() > to_send {
+                log_id!(
+                    debug,
+                    self.id,
+                    "Dropping non-processed {} bytes coming after the response body",
+                    data.len() - to_send
+                );
+            }
             state.sink.eof()?;
+            return Ok(Bytes::new());
         }
 
-        Ok(data.split_off(to_send - unsent.len()))
+        Ok(data.split_off(sent))
     }
 
     fn on_encoded_chunk_prefix(&mut self, data: Bytes) -> io::Result<Bytes> {
